@@ -16,7 +16,7 @@ import os as _real_os
 import signal
 import subprocess as _real_subprocess
 
-from mc.core import Check, h
+from mc.core import Check
 from mc import devex
 from mc.vloop import World
 
